@@ -510,6 +510,8 @@ Definition compute_swap (s : amm) (exact_in : bool) (denom_in denom_out : Z) (sp
   let! st := swap_loop (length iter + 300) exact_in b4q update_acc fee limit (p_tp p)
                (a_acc_value s) denom_in iter st0 in
   if ss_remaining st <? 0 then Err E_OVERCHARGE else
+  (* fix "fail a pool swap that stops at the price limit": never fill partially *)
+  if 0 <? ss_remaining st then Err E_INSUFFICIENT_LIQ else
   if exact_in then
     let! used := of_opt (dsub (dec_of_int specified) (ss_remaining st)) in
     let! c := of_opt (dceil used) in
@@ -557,6 +559,8 @@ Definition quote_swap (s : amm) (exact_in : bool) (denom_in denom_out specified 
 (* AllocateIncentive *)
 Definition allocate_incentive (s : amm) (coins : vec) : res amm :=
   if negb (has_position (a_pool s)) then Err E_EMPTY_LIQ else
+  (* fix "no division by zero when allocating incentives": no in-range liquidity is an error *)
+  if p_liq (a_pool s) <=? 0 then Err E_EMPTY_LIQ else
   let! g := of_opt (vquo_dec_trunc (map dec_of_int coins) (p_liq (a_pool s))) in
   let! v := of_opt (vadd (a_acc_value s) g) in
   send (set_acc s v (a_acc_shares s)) AUser AFee coins.
